@@ -450,6 +450,16 @@ func c20BodiesBuild(fam int, thorough bool) []c20Body {
 			}
 		}
 	case famOpaque:
+		// longer bodies that look like none of the five kinds: the first and the third byte through all 256
+		// values (flag bytes of descriptors the library half-knows, e.g. E-AC-3), printable text behind them
+		for b0 := 0; b0 < 256; b0++ {
+			for b2 := 0; b2 < 256; b2++ {
+				if !thorough && b2%5 != b0%5 && b2 < 0x80 {
+					continue // quick: every third byte with the top bit set, a fifth of the others
+				}
+				out = append(out, c20Body{[]byte{byte(b0), 0x0A, byte(b2), 'e', 'n', 'g', 0x00, 'f', 'r', 'a', 0x03}, c20Expect{}})
+			}
+		}
 		for n := 0; n <= 6; n++ {
 			for _, fill := range []byte{0x00, 0xFF, 0x20, 0x44} {
 				b := make([]byte, n)
@@ -565,6 +575,15 @@ func c20CheckDesc(res *engine.Result, via string, d psi.PmtDescriptor, T int, fa
 			}
 		}
 	}
+	// printing is not decoding: after Format / String / %v the decoders answer as before (own-tag bodies, and
+	// every 8th foreign tag)
+	if own || T%8 == 3 {
+		before := c06Obs(d)
+		_ = fmt.Sprintf("%v|%s|%+v", d, d.Format(), d)
+		if after := c06Obs(d); after != before {
+			res.Failf(sig("decoders-after-printing"), "tag %#x body % x: the decoders answer %q before and %q after the descriptor was printed", T, b.body, before, after)
+		}
+	}
 }
 
 func c20CheckDescCase(c c20DescCase) engine.Result {
@@ -636,7 +655,7 @@ func init() {
 			},
 			&engine.Enum[c20DescCase]{
 				Name: "descriptors",
-				Rule: "case = (body family, tag) for all 6 families x all 256 tags; Check runs every body of the family (bitrate: <=2-bit patterns+stride grid [thorough: all 2^21] x reserved bits; ISO-639: 64 codes x 256 audio types, plus descriptors of two and three language entries and one cut inside the second entry; TTML: 3 ext bytes x 8 languages x 256 purpose bytes; registration: DOVI + all single-byte deviations + short bodies + DOVI behind 5 other leads at every offset 1..8; Dolby Vision codec string asked with 9 different original-codec arguments; Dolby Vision: 128 profiles x 32 levels x flag bits x versions; opaque bodies of length 0..6). Decoders whose tag equals the descriptor tag are only called on bodies of that tag's own family (well-formed); all other tag-dispatched decoders must return their neutral value. non-trivial = each distinct (tag, body)",
+				Rule: "case = (body family, tag) for all 6 families x all 256 tags; Check runs every body of the family (bitrate: <=2-bit patterns+stride grid [thorough: all 2^21] x reserved bits; ISO-639: 64 codes x 256 audio types, plus descriptors of two and three language entries and one cut inside the second entry; TTML: 3 ext bytes x 8 languages x 256 purpose bytes; registration: DOVI + all single-byte deviations + short bodies + DOVI behind 5 other leads at every offset 1..8; Dolby Vision codec string asked with 9 different original-codec arguments; Dolby Vision: 128 profiles x 32 levels x flag bits x versions; opaque bodies of length 0..6). Decoders whose tag equals the descriptor tag are only called on bodies of that tag's own family (well-formed); all other tag-dispatched decoders must return their neutral value. non-trivial = each distinct (tag, body); the opaque family also holds 11-byte bodies whose first and third byte run through all 256 values (flag bytes of descriptors the library half-knows) in front of two language-like entries; for own-tag bodies and every 8th foreign tag the descriptor is printed (Format, %v) and every decoder is asked again: printing must not change the answers",
 				Gen: func(r *engine.Run, emit func(c20DescCase)) {
 					for f := 0; f < famCount; f++ {
 						for t := 0; t < 256; t++ {
